@@ -757,7 +757,16 @@ func (i *Inst) MintInGroup(group, sub, loginName, hostParam, localIP, xff string
 	if hostParam != "" {
 		q = "host=" + url.QueryEscape(hostParam)
 	}
-	hops, err := g.b.Connect(q, 3)
+	// the same logged-in session, now seen from the address this tunnel's file is downloaded from (a client that moved:
+	// the session cookie travels with it)
+	nb := i.NewBrowser(localIP, xff)
+	for _, base := range []string{"http://127.0.0.1", "https://127.0.0.1", "http://[::1]", "https://[::1]"} {
+		u, _ := url.Parse(fmt.Sprintf("%s:%d/", base, i.P.Port))
+		if cs := g.b.C.Jar.Cookies(u); len(cs) > 0 {
+			nb.C.Jar.SetCookies(u, cs)
+		}
+	}
+	hops, err := nb.Connect(q, 3)
 	if err != nil {
 		return "", nil, g.at, err
 	}
